@@ -349,15 +349,40 @@ func thresholds(commitFull, govSeqMax, govInjMax, ledgerSolo, ledgerVbft int, pa
 	// ---- ledger verifyHeader (sequential: the consensus mode is a process-wide setting)
 	ledgerSite := func(mode, rule, cond string, n int, expect int, op string) {
 		t := tres{Site: "ledger-" + mode + "-" + rule + "-" + op, N: n, Expect: expect, Least: -1, Shape: cond}
-		w, err := tryOpenWorld(mode, rule, cond, n, rng)
+		gn := n
+		if mode == "vbft" && n > 16 {
+			gn = 4
+		}
+		w, err := tryOpenWorld(mode, rule, cond, gn, rng)
 		if err != nil {
 			// more bookkeepers than a multi-signature address allows (16): such a solo chain cannot be created
 			vio.Emit(map[string]interface{}{"skipped": true, "what": t.Site, "n": n, "err": err.Error()})
 			return
 		}
 		defer w.close()
+		first := 1 // id of the first member of the set whose threshold is measured
+		if w.n != n {
+			// vbft set larger than a genesis block can name: installed by an accepted announcing header / block
+			first = 101
+			var set []int
+			for i := 0; i < n; i++ {
+				set = append(set, first+i)
+			}
+			ev := w.offer(op, absHeader{Bk: seq1(w.n), Sg: seq1(w.n), Cfg: set, Body: "ok"}, "hand-over")
+			if !ev.Acc || len(ev.Obs) != n {
+				vio.Fatal("hand-over to %d validators failed: %+v", n, ev)
+			}
+			t.Shape += "+hand-over"
+		}
+		ids := func(k int) []int {
+			r := make([]int, k)
+			for i := range r {
+				r[i] = first + i
+			}
+			return r
+		}
 		for k := 0; k <= n; k++ {
-			a := absHeader{Bk: seq1(k), Sg: seq1(k), Body: "ok"}
+			a := absHeader{Bk: ids(k), Sg: ids(k), Body: "ok"}
 			if mode == "solo" {
 				a.Bk = seq1(n)
 				a.Cfg = seq1(n)
